@@ -242,7 +242,7 @@ func (c *LocalReusableWorkflowCache) FindMetadata(spec string) (*ReusableWorkflo
 			return m, nil
 		}
 		// The error contains the file path as-is
-		msg := strings.ReplaceAll(err.Error(), "\n", " ")
+		msg := replaceLineBreaks(err.Error())
 		return nil, fmt.Errorf("could not read reusable workflow file for %q: %s", spec, msg)
 	}
 
@@ -251,7 +251,7 @@ func (c *LocalReusableWorkflowCache) FindMetadata(spec string) (*ReusableWorkflo
 		if m, ok := c.writeCacheIfAbsent(spec, nil); ok { // Remember the workflow file was invalid
 			return m, nil
 		}
-		msg := strings.ReplaceAll(err.Error(), "\n", " ")
+		msg := replaceLineBreaks(err.Error())
 		return nil, fmt.Errorf("error while parsing reusable workflow %q: %s", spec, msg)
 	}
 
